@@ -124,6 +124,7 @@ type Enc struct {
 	content   bool
 	owner     bool
 	localRefs map[string]bool // objects allocated by the function under verification (not yet shared)
+	ioCount   string // number of calls of io_effect functions so far on the current path (SMT term)
 	fpFuns    []string
 	retained  []retainedStore
 	compTypes map[string]types.Type
